@@ -96,42 +96,43 @@ Theorem C10_config_entry_delete_reports_removal : forall graph_ok s c,
   is_Some (cfg s !! d_key c) /\ cfg (cw_post (W_cfg_delete graph_ok) s c) !! d_key c = None.
 Proof. exact cfg_delete_reports_removal. Qed.
 
-(* ---------- config entries, the RPC endpoints ConfigEntry.Apply / ConfigEntry.Delete: REFUTED ---------- *)
-(* full statement: honest (W_rpc_cfg_upsert graph_ok).  Witness: service-defaults/web stored at index 5
-   with content 1; UpsertCAS of the same content expecting index 3 is answered true *)
-Theorem C10_config_entry_rpc_upsert_refuted :
-  let W := W_rpc_cfg_upsert (fun _ _ => true) in
-  cw_ok W rpc_witness_state rpc_witness_cmd = true /\ cw_matched W rpc_witness_state rpc_witness_cmd = false /\
-  cw_post W rpc_witness_state rpc_witness_cmd = rpc_witness_state.
-Proof. exact rpc_cfg_upsert_refuted. Qed.
+(* ---------- config entries, the RPC endpoints ConfigEntry.Apply / ConfigEntry.Delete (repaired by fbf8c12) ---------- *)
+(* The unconditional write of this layer (cw_write / cw_valid of W_rpc_cfg_upsert) is ConfigEntry.Apply with a
+   plain upsert, which is itself a no-op when the stored entry already equals the submitted one.
+   Hypothesis stored_positive: the stored entry's ModifyIndex is not zero (it is a Raft index). *)
+Theorem C10_config_entry_rpc_upsert : forall graph_ok, honest_on stored_positive (W_rpc_cfg_upsert graph_ok).
+Proof. exact rpc_cfg_upsert_honest. Qed.
 
-Theorem C10_config_entry_rpc_upsert_not_honest : ~ honest (W_rpc_cfg_upsert (fun _ _ => true)).
-Proof. exact rpc_cfg_upsert_not_honest. Qed.
+(* in particular an entry of equal content no longer excuses a wrong index *)
+Theorem C10_config_entry_rpc_upsert_equal_content_mismatch : forall graph_ok s c x,
+  cfg s !! u_key c = Some x -> u_cidx c <> ce_modify x ->
+  apply graph_ok (u_idx c) (rcmd c) s = (s, RBool false).
+Proof. exact rpc_cfg_upsert_equal_content_mismatch. Qed.
 
-(* exact hypothesis: the endpoint does not short-circuit (stored content/status differ from the submitted) *)
-Theorem C10_config_entry_rpc_upsert_partial : forall graph_ok,
-  honest_on (fun s c => rpc_skipped s c = false) (W_rpc_cfg_upsert graph_ok).
-Proof. exact rpc_cfg_upsert_partial. Qed.
+Theorem C10_config_entry_rpc_upsert_effective : forall graph_ok s c,
+  rpc_skip_upsert false 0 (u_key c) (u_content c) (u_status c) s = false ->
+  (forall x, cfg s !! u_key c = Some x -> ce_modify x < u_idx c) ->
+  cw_valid (W_rpc_cfg_upsert graph_ok) s c = true -> effective (W_rpc_cfg_upsert graph_ok) s c.
+Proof. exact rpc_cfg_upsert_effective. Qed.
 
-(* and when it does: "true", nothing written, the stored entry already has the submitted content *)
-Theorem C10_config_entry_rpc_upsert_skip : forall graph_ok s c,
-  rpc_skipped s c = true ->
-  apply graph_ok (u_idx c) (rcmd c) s = (s, RBool true) /\
-  exists x, cfg s !! u_key c = Some x /\ ce_content x = u_content c.
-Proof. exact rpc_cfg_upsert_skip. Qed.
-
-(* DeleteCAS through the endpoint: an absent entry is answered Deleted = true for every index *)
-Theorem C10_config_entry_rpc_delete_not_honest : ~ honest (W_rpc_cfg_delete (fun _ _ => true)).
-Proof. exact rpc_cfg_delete_not_honest. Qed.
+Theorem C10_config_entry_rpc_delete : forall graph_ok, honest (W_rpc_cfg_delete graph_ok).
+Proof. exact rpc_cfg_delete_honest. Qed.
 
 Theorem C10_config_entry_rpc_delete_absent : forall graph_ok s c,
   cfg s !! rd_key c = None ->
-  apply graph_ok (rd_idx c) (RpcCfgDelete true (rd_key c) (rd_cidx c)) s = (s, RBool true).
+  apply graph_ok (rd_idx c) (RpcCfgDelete true (rd_key c) (rd_cidx c)) s = (s, RBool false).
 Proof. exact rpc_cfg_delete_absent. Qed.
 
-Theorem C10_config_entry_rpc_delete_partial : forall graph_ok,
-  honest_on (fun s c => is_Some (cfg s !! rd_key c)) (W_rpc_cfg_delete graph_ok).
-Proof. exact rpc_cfg_delete_partial. Qed.
+(* regression + non-vacuity: the inputs answered "true" before the repair (equal content with a stale /
+   zero index; delete-cas of an absent entry) are answered false, the matching index is answered true,
+   and the witness state meets stored_positive *)
+Example C10_example_rpc_regression :
+  apply (fun _ _ => true) 9 (rcmd rpc_witness_cmd) rpc_witness_state = (rpc_witness_state, RBool false) /\
+  apply (fun _ _ => true) 9 (RpcCfgApply true ("service-defaults", "web") 1 0 0) rpc_witness_state = (rpc_witness_state, RBool false) /\
+  apply (fun _ _ => true) 9 (RpcCfgApply true ("service-defaults", "web") 1 0 5) rpc_witness_state = (rpc_witness_state, RBool true) /\
+  apply (fun _ _ => true) 5 (RpcCfgDelete true ("service-defaults", "web") 3) st0 = (st0, RBool false) /\
+  stored_positive rpc_witness_state rpc_witness_cmd.
+Proof. exact rpc_regression. Qed.
 
 (* ---------- CA configuration: a mismatch is an ERROR ---------- *)
 Theorem C10_ca_config : honest W_ca_config.
@@ -340,15 +341,14 @@ Print Assumptions C10_example_composite.
 Print Assumptions C10_example_hypotheses.
 Print Assumptions C10_txn_all_parts_or_none.
 Print Assumptions C10_txn_committed_cond_op_matched.
-Print Assumptions C10_config_entry_rpc_upsert_refuted.
-Print Assumptions C10_config_entry_rpc_upsert_not_honest.
-Print Assumptions C10_config_entry_rpc_upsert_partial.
-Print Assumptions C10_config_entry_rpc_upsert_skip.
-Print Assumptions C10_config_entry_rpc_delete_not_honest.
-Print Assumptions C10_config_entry_rpc_delete_absent.
-Print Assumptions C10_config_entry_rpc_delete_partial.
 Print Assumptions C10_ca_config_zero_overwrites.
 Print Assumptions C10_ca_roots_stale_is_false.
 Print Assumptions C10_acl_token_batch_partial_application.
 Print Assumptions C10_example_txn_cond_not_first.
 Print Assumptions C10_example_txn_guard_after_cas.
+Print Assumptions C10_config_entry_rpc_upsert.
+Print Assumptions C10_config_entry_rpc_upsert_equal_content_mismatch.
+Print Assumptions C10_config_entry_rpc_upsert_effective.
+Print Assumptions C10_config_entry_rpc_delete.
+Print Assumptions C10_config_entry_rpc_delete_absent.
+Print Assumptions C10_example_rpc_regression.
